@@ -195,6 +195,78 @@ def pool_vs_descriptor_limit(ctx, base):
                       f'C06: 1000 files under RLIMIT_NOFILE=1024 (parblock): exit {out[1][0]} with one worker, exit {out[4][0]} / different result with 4 stalled workers: {out[4][2]}')
 
 
+def block_order_corpus(ctx, base):
+    """deterministic versions of two schedule-dependent failures: (1) the block that ends at EOF finishes long BEFORE an earlier
+    block of the same file (the earlier one is stalled by address): permissions and timestamps are still those of the source;
+    (2) the kernel copy is refused and several workers run the user-space loops on ONE pair of descriptors with every read
+    stalled: the bytes are still right"""
+    import os, stat as _stat
+    for j, (stall_off, workers) in enumerate(((0, 4), (2048, 2), (0, 8))):
+        sc = treerun.Scn(); sc.driver, sc.workers = 'parblock', workers
+        sc.d(b'/W').d(b'/W/S').f(b'/W/S/multi', text=bytes(range(256)) * 24 + b'tail' * 25).f(b'/W/S/one', text=b'1' * 100)
+        sc.opts = ['r']; sc.extra = ['--block-size', '2048']; sc.paths = [b'S', b'DEST']
+        plan = [f'stallo copy_file_range multi {stall_off} 400000']
+        o = treerun.run(base, sc, plan=plan, trace=True, timeout=60)
+        ctx.count(f'block_order.late_first_block.{o.res.cls}'); ctx.case(('late-first-block', stall_off, workers), True)
+        src, dst = o.root + '/W/S/multi', o.root + '/W/DEST/multi'
+        bad = None
+        if o.res.cls != '0' or not os.path.exists(dst):
+            bad = f'run failed ({o.res.cls})'
+        else:
+            a, b2 = os.lstat(src), os.lstat(dst)
+            if open(src, 'rb').read() != open(dst, 'rb').read(): bad = 'bytes differ'
+            elif a.st_mtime_ns != b2.st_mtime_ns: bad = f'modification time {b2.st_mtime_ns} is not the source\'s {a.st_mtime_ns}'
+            elif _stat.S_IMODE(a.st_mode) != _stat.S_IMODE(b2.st_mode): bad = 'permissions differ'
+        if bad:
+            ctx.violation(f'late-first-block-{j}.json', dict(plan=plan, workers=workers, exit=o.res.cls, oracle=bad),
+                          f'C06: with the block at offset {stall_off} finishing last (parblock, {workers} workers): {bad} — the result depends on which block finishes last')
+    for j in range(3 if ctx.quick else 12):
+        sc = treerun.Scn(); sc.driver, sc.workers = 'parblock', 8
+        sc.d(b'/W').d(b'/W/S').f(b'/W/S/big', text=b''.join(bytes([65 + k % 26]) * 1000 for k in range(64)))
+        sc.opts = ['r']; sc.extra = ['--block-size', '1000']; sc.paths = [b'S', b'DEST']
+        plan = [f'fail copy_file_range * * {scen.ERRNO["EXDEV"]}', 'stall read 1500', 'stall pread64 1500', 'stall lseek 1500', f'sched {ctx.seed * 11 + j} delay 3']
+        o = treerun.run(base, sc, plan=plan, trace=True, timeout=90)
+        ctx.count(f'block_order.uspace_shared_descriptors.{o.res.cls}'); ctx.case(('uspace-shared-descriptors', j), True)
+        same = o.res.cls == '0' and os.path.exists(o.root + '/W/DEST/big') and open(o.root + '/W/S/big', 'rb').read() == open(o.root + '/W/DEST/big', 'rb').read()
+        if not same:
+            ctx.violation(f'uspace-shared-{j}.json', dict(plan=plan, exit=o.res.cls, stderr=o.res.stderr[-200:]),
+                          f'C06: 64 blocks copied by 8 workers through the user-space loops (copy_file_range refused): exit {o.res.cls}, bytes identical={same} — the result depends on the interleaving')
+            break
+
+
+def driver_and_pace_agreement(ctx, base):
+    """(1) a destination already holding the links of an earlier copy: both drivers give the SAME exit status; (2) a walker that
+    pauses for three seconds in the middle of the tree (one mkdir stalled) while the workers sit idle: nothing is lost"""
+    res = {}
+    for driver in ('parfile', 'parblock'):
+        for workers in (1, 4):
+            sc = treerun.Scn(); sc.driver, sc.workers = driver, workers
+            sc.d(b'/W').d(b'/W/S').f(b'/W/S/a').l(b'/W/S/l1', b'a').d(b'/W/S/sub').l(b'/W/S/sub/l2', b'../a').f(b'/W/S/sub/b')
+            sc.d(b'/W/DEST').d(b'/W/DEST/S').l(b'/W/DEST/S/l1', b'a').d(b'/W/DEST/S/sub').l(b'/W/DEST/S/sub/l2', b'../a')
+            sc.opts = ['r']; sc.paths = [b'S', b'DEST']
+            o = treerun.run(base, sc, timeout=60)
+            res[(driver, workers)] = o.res.cls
+            ctx.count(f'recopy_over_links.{driver}.{o.res.cls}'); ctx.case(('recopy-over-links', driver, workers), True)
+    if len(set(res.values())) > 1:
+        ctx.violation('recopy-over-links.json', dict(results={str(k): v for k, v in res.items()}),
+                      f'C06: re-copying a tree over a destination that already holds its links: exit status depends on driver/worker count: {res}')
+    for driver in ('parfile', 'parblock'):
+        sc = treerun.Scn(); sc.driver, sc.workers = driver, 4
+        sc.d(b'/W').d(b'/W/S')
+        for k in range(8):
+            sc.d(b'/W/S/d%d' % k)
+            for q in range(6):
+                sc.f(b'/W/S/d%d/f%d' % (k, q))
+        sc.opts = ['r']; sc.paths = [b'S', b'DEST']
+        plan = ['stallp mkdir d4 3000000', 'stallp mkdir d5 3000000']       # whichever comes later in readdir order: >= 3 s of silence on the queue
+        o = treerun.run(base, sc, plan=plan, trace=True, timeout=90)
+        n = sum(1 for t in o.after if b'/W/DEST/'.hex() in t and '=f:' in t)
+        ctx.count(f'walker_pause.{driver}.{o.res.cls}'); ctx.case(('walker-pause', driver), True)
+        if o.res.cls != '0' or n != 48:
+            ctx.violation(f'walker-pause-{driver}.json', dict(plan=plan, exit=o.res.cls, files_copied=n, expected=48),
+                          f'C06: a walker pausing 3 s between two directories ({driver}, 4 workers): exit {o.res.cls}, {n} of 48 files copied — the result depends on how fast the walker is')
+
+
 def walk_fails_late(ctx, base):
     """the WALK fails after most of the work has been queued (a dangling link under -L in the last source): the exit status is
     non-zero and everything queued before the failure is still copied — the same complete partial result on every schedule,
@@ -234,6 +306,8 @@ def run(ctx):
         failing_special(ctx, base)
         pool_vs_descriptor_limit(ctx, base)
         walk_fails_late(ctx, base)
+        block_order_corpus(ctx, base)
+        driver_and_pace_agreement(ctx, base)
         for i in range(n):
             sc = gen(rng)
             configs = [(d, w) for d in ('parfile', 'parblock') for w in (1, 2, 3, 8, 64)]
